@@ -958,6 +958,14 @@ def _factorize_single(by, expect, *, sort: bool, reindex: bool) -> tuple[pd.Inde
             if expect.closed == "neither":
                 # open on both sides: a label that sits on an edge belongs to no bin (like pandas.cut)
                 idx[np.isin(flat, bins)] = -1
+            rights = expect.right.to_numpy()
+            if len(rights) > 1 and not np.array_equal(rights[:-1], expect.left.to_numpy()[1:]):
+                # the intervals are not contiguous: `bins` only holds their left edges, so a label in the gap
+                # after interval i was given to interval i; pandas.cut gives it to none
+                rights = rights.astype(flat.dtype, copy=False) if as_int else rights
+                inside = idx >= 0
+                beyond = flat[inside] > rights[idx[inside]] if right else flat[inside] >= rights[idx[inside]]
+                idx[np.flatnonzero(inside)[beyond]] = -1
         else:
             idx = np.zeros_like(flat, dtype=np.intp) - 1
         found_groups = cast(pd.Index, expect)
